@@ -1,15 +1,16 @@
 package main
 
 import (
-	"unicode/utf8"
 	"bytes"
 	"encoding/base64"
 	"encoding/json"
 	"fmt"
+	"github.com/bolkedebruin/rdpgw/cmd/rdpgw/security"
 	"os"
 	"path/filepath"
 	"strings"
 	"time"
+	"unicode/utf8"
 
 	"verif/shim/vclock"
 )
@@ -370,6 +371,26 @@ func c13Login(app *WebApp, b *Browser, code string) bool {
 // c13Cookies: altered / foreign / orphaned session cookies.
 func c13Cookies(env *Env, rep *Report, n *int) int {
 	distinct := 0
+	if env.Shard == 0 {
+		// session keys that are not configured are generated (config.Load uses security.GenerateRandomString): 200
+		// of them must be 200 different 32-character strings (a generator whose values repeat within 200 draws
+		// has at most a few thousand values: its cookies can be forged by trying them all)
+		seen := map[string]bool{}
+		for i := 0; i < 200; i++ {
+			k, err := security.GenerateRandomString(32)
+			if err != nil || len(k) != 32 {
+				rep.violate("C13/generated-session-key-unusable", fmt.Sprintf("draw %d: %q %v", i, k, err), map[string]any{"noreplay": true})
+				break
+			}
+			seen[k] = true
+		}
+		distinct++
+		rep.add("executions", 200)
+		rep.outcome(fmt.Sprintf("generated keys all different=%v", len(seen) == 200))
+		if len(seen) < 200 {
+			rep.violate("C13/generated-session-keys-repeat", fmt.Sprintf("200 generated 32-character keys have only %d different values: a cookie the gateway never produced can be made by trying the few possible keys", len(seen)), map[string]any{"noreplay": true})
+		}
+	}
 	for _, store := range []string{"cookie", "file"} {
 		vclock.Reset()
 		app := NewWebApp(WebCfg{Store: store, HostSelection: "roundrobin", Hosts: []string{"target.example:3389"}})
@@ -438,6 +459,26 @@ func c13Cookies(env *Env, rep *Report, n *int) int {
 			app = NewWebApp(WebCfg{Store: store, HostSelection: "roundrobin", Hosts: []string{"target.example:3389"}})
 			c13Script(app.IdP)
 			try("foreign-instance-cookie", foreign)
+		}
+		// ... and an instance that shares the encryption key but has another signing key (a cookie is accepted only
+		// under both keys of this instance)
+		app3 := NewWebApp(WebCfg{Store: store, HostSelection: "roundrobin", Hosts: []string{"target.example:3389"}, SessionKey: "another-instance-key-another-key"})
+		c13Script(app3.IdP)
+		b4 := NewBrowser("10.0.0.1:40000")
+		if c13Login(app3, b4, "ok:preferred_username") {
+			foreign := b4.Cookies["RDPGWSESSION"]
+			app = NewWebApp(WebCfg{Store: store, HostSelection: "roundrobin", Hosts: []string{"target.example:3389"}})
+			c13Script(app.IdP)
+			try("cookie-of-an-instance-with-the-same-encryption-key-and-another-signing-key", foreign)
+		}
+		app4 := NewWebApp(WebCfg{Store: store, HostSelection: "roundrobin", Hosts: []string{"target.example:3389"}, SessionEncKey: "another-instance-enc-another-enc-"})
+		c13Script(app4.IdP)
+		b5 := NewBrowser("10.0.0.1:40000")
+		if c13Login(app4, b5, "ok:preferred_username") {
+			foreign := b5.Cookies["RDPGWSESSION"]
+			app = NewWebApp(WebCfg{Store: store, HostSelection: "roundrobin", Hosts: []string{"target.example:3389"}})
+			c13Script(app.IdP)
+			try("cookie-of-an-instance-with-the-same-signing-key-and-another-encryption-key", foreign)
 		}
 		if store == "file" {
 			// valid cookie whose session file was deleted
